@@ -1,4 +1,4 @@
-import sys; sys.path[:0]=['/repo','/verif/.deps','/verif/design_probes']
+import sys, os; sys.path[:0]=[os.environ.get('VERIF_REPO','/repo'),'/verif/.deps','/verif/design_probes']
 import torch, numpy as np, itertools, time, warnings
 from ref import *
 from qucumber.nn_states import PositiveWaveFunction, ComplexWaveFunction, DensityMatrix
